@@ -411,7 +411,9 @@ def compare_cg(ctx, case, out, mod):
             if not (_close(a[key], mv, rt, scale_abs if not exact else 0.0)):
                 return f"iteration {k + 1}: {key} impl={a[key]!r} model={mv!r}"
         if a["reset"] != m["reset"]:
-            return f"iteration {k + 1}: reset branch impl={a['reset']} model={m['reset']}"
+            # when the residual is recomputed is an efficiency/accuracy matter, not part of the property (exact
+            # arithmetic gives the same trajectory either way): recorded, not an alarm
+            ctx.stat("cg:reset-pattern-differs")
         if a["status"] is not None and not exact and _margin(cj, k + 1, out["recs"]) < MARGIN:
             stopped = True
             ctx.stat("cg:stopped:decision-in-margin")
